@@ -250,6 +250,19 @@ pub fn c07(tier: &str) -> i32 {
     mg.limit_vols = vec![1, 3_000_000_000];
     mg.reload_modes = vec![0, 1, 2];
     plans.push(plan("large times (beyond 2^53), prices and volumes", mg, 3, if t { 4 } else { 3 }));
+    // a snapshot file larger than 1 MiB (6 000 resting orders, both formats) through the file path
+    {
+        let mut q = snapshot_profile("snapshot-bulk");
+        q.reload_modes = vec![1, 2];
+        q.create_place = false;
+        q.modify = false;
+        q.toggles = false;
+        q.id_window = 2;
+        q.limit_vols = vec![2];
+        q.market_vols = vec![1];
+        let base: Vec<Step> = (0..6000u32).map(|i| lim(i % 2 == 0, if i % 2 == 0 { 10 } else { 11 }, 1 + i % 3)).collect();
+        plans.push(Plan { label: "6 000 resting orders: file snapshots beyond 1 MiB in both formats".into(), profile: q, levels: 3, depth: 1, base });
+    }
     execute(
         &mut out,
         plans,
